@@ -87,6 +87,28 @@ fn perturb(doc: &Value, path: &[String]) -> Option<Value> {
     Some(d)
 }
 
+/// Perturb one numeric or system-name leaf to a value that does not fit the field at all (negative, beyond 8 /
+/// 32 bits, an unknown system name): a change of that statistic like any other.
+fn perturb_out_of_range(doc: &Value, path: &[String], k: usize) -> Option<Value> {
+    let last = path.last().map(|s| s.as_str()).unwrap_or("");
+    if last == "is_finalized" {
+        return None;
+    }
+    let mut d = doc.clone();
+    let leaf = get_mut(&mut d, path)?;
+    let new = match leaf.clone() {
+        Value::Number(_) => match k % 3 {
+            0 => Value::from(-1i64),
+            1 => Value::from(4_294_967_296i64),
+            _ => Value::from(256i64),
+        },
+        Value::String(_) if path.iter().any(|p| p == "system_id") => Value::from("XYZ"),
+        _ => return None,
+    };
+    *leaf = new;
+    Some(d)
+}
+
 fn render(doc: &Value, ext: &str) -> Option<String> {
     if ext == "toml" {
         toml::to_string(doc).ok()
@@ -199,7 +221,12 @@ pub fn run_stats_rt(
         paths = paths.into_iter().step_by(7).collect();
     }
     for (pi, path) in paths.into_iter().enumerate() {
-        let Some(d) = perturb(&doc, &path) else { continue };
+        // every fourth leaf: a value that does not fit the field (where the leaf is a number or a system name)
+        let out_of_range = if pi % 4 == 1 { perturb_out_of_range(&doc, &path, pi / 4) } else { None };
+        if out_of_range.is_some() {
+            ex.fault("stored_statistic_out_of_range");
+        }
+        let Some(d) = out_of_range.or_else(|| perturb(&doc, &path)) else { continue };
         let Some(text) = render(&d, &ext) else { continue };
         let mut c = bb.clone();
         c.input_stats = Some(text);
